@@ -326,6 +326,11 @@ impl FarmWorld {
             18 => ('O', format!("updateEnergy {}", u)),
             19 => {
                 if let Some((nn, a)) = self.pick_pay(rng, &s, u, &[]) {
+                    if rng.chance(2, 3) {
+                        // quote, then execute the very same claim / exit (C20: quote = execution)
+                        let t = if rng.chance(1, 2) { format!("claim {} - {}:{}", u, nn, a) } else { format!("exit {} - {}:{}", u, nn, a) };
+                        self.pending.push(t);
+                    }
                     ('Q', format!("calcRewards {} {} {}", u, a, nn))
                 } else {
                     ('O', format!("enter {} - {}", u, amount(rng)))
